@@ -141,6 +141,8 @@ class World:
             return "(in-ns '%s)" % other
         if a == "req":
             return "(require '[%s :as al])" % other
+        if a == "aliasself":
+            return "(require '[%s :as al])" % self.nsname(st["ns"])
         if a == "refer":
             return "(refer '%s :only '[%s])" % (other, n)
         if a == "alter":
@@ -325,7 +327,7 @@ def _W_text(st):
     a, n = st["a"], st["n"]
     o = "B" if st["ns"] == "A" else "A"
     return {"def": "(def %s%s %s)" % (FLAGMETA.get(st["fl"], ""), n, st["v"]), "inns": "(in-ns '%s)" % o,
-            "req": "(require '[%s :as al])" % o, "refer": "(refer '%s :only '[%s])" % (o, n),
+            "req": "(require '[%s :as al])" % o, "aliasself": "(require '[%s :as al])" % st["ns"], "refer": "(refer '%s :only '[%s])" % (o, n),
             "alter": "(alter-var-root (var %s) (constantly %s))" % (n, st["v"])}[a]
 
 
